@@ -33,13 +33,23 @@ they may differ by re-association only: ``|R2 - R1|, |REF - R1| <= 1e-11 * max(1
 (computed by REF) is the sum of the magnitudes of the individual terms of the formula including the
 intermediate fields of nested operators (bounded with the operator norm ``NL = 2*sum(4/dx_a**2)``); this
 is round-off (1e-16) x the number of operations with five orders of slack, nothing is tuned.
-R3 works with parameters printed by ``{:g}``: its tolerance is ``1e-10 * max(1, mag) + 2 * sum_k rel_k * magp``
+(The floor of every scale is not 1 but ``kappa`` = the sum of the absolute coefficients of the formula, i.e.
+the magnitude of the rate for unit data, so that all comparisons stay relative when coefficients are tiny.)
+R3 works with parameters printed by ``{:g}``: its tolerance is ``1e-12 * scale + 2 * sum_k rel_k * magp_k``
+(<= ~50 floating point operations per entry on operands bounded by ``mag``: <= 1.2e-14 * mag between two
+routes, two orders of slack; the largest deviation actually observed is reported as an outcome class)
 where ``rel_k = |float(f"{q_k:g}") - q_k| / |q_k|`` is the *actual* printing error of every printed
-coefficient ``q_k`` (computed here, independently of ``expr_prod``) and ``magp`` is the magnitude of the
-terms these coefficients multiply (from REF): parameter set A (<= 6 significant
+coefficient ``q_k`` (computed here, independently of ``expr_prod``) and ``magp_k = |q_k| |T_k|`` is the
+magnitude of the term this coefficient multiplies (from REF; the allowance is term by term, so an exactly
+printed coefficient gets none from its neighbours): parameter set A (<= 6 significant
 digits) prints exactly, so R3 must agree to round-off; set B (1/3-type values) gives <= 5e-6 per
 coefficient, i.e. the "6 printed digits" (1e-5) of the property; set C (values 1, -1, 0) walks through
-the special branches of ``expr_prod`` / ``isclose(mobility, 1)`` / ``mass == 0``.
+the special branches of ``expr_prod`` / ``isclose(mobility, 1)`` / ``mass == 0``; set D has tiny non-zero
+printed coefficients (1e-9, 4e-9, -2.5e-9, which ``{:g}`` prints exactly: a text that shows them as ``0``
+is wrong by 100 % of the term) and a huge one (1e9); set E has coefficients next to +-1: ``1 + 1e-6`` and
+``-1 - 1e-7`` print as ``1`` / ``-1`` (printing error 1e-6 / 1e-7, inside the 6 digits and inside the
+tolerance by construction), ``1 - 1e-6 = 0.999999`` has exactly 6 digits and must be printed.  D and E run
+with homogeneous conditions (default, mixed(const 0) / value 0) so that R3 is compared for every class.
 
 R3 is compared only where the expression text determines the BC wiring (rule per class; ``L[B]`` =
 Laplacian with conditions B, ``G[B]`` = squared gradient):
@@ -111,29 +121,50 @@ TIMES = [0.0, 1.3]
 
 T13, T23 = 1 / 3, 2 / 3
 
+# Parameter sets: A <= 6 significant digits (prints exactly); B 1/3-type values (6 printed digits);
+# C the special values 1, -1, 0 (branches of expr_prod, isclose(mobility, 1), mass == 0);
+# D tiny but non-zero printed coefficients (1e-9, 4e-9, -2.5e-9; for Wave/KleinGordon speed**2, mass**2 are
+#   the printed coefficients) together with a huge one (mobility 1e9) where it multiplies the whole rate: the
+#   text must carry them ("1e-09 * ..."), a term printed as 0 is wrong by 100 % of that term;
+# E coefficients next to +-1: 1 + 1e-6 and -1 - 1e-7 print as "1" / "-1" (printing error 1e-6 / 1e-7, allowed:
+#   6 significant digits), 1 - 1e-6 = 0.999999 has exactly 6 digits and must be printed.
+#   (AllenCahnPDE.expression itself drops a mobility with isclose(mobility, 1); set E stays outside that zone.)
+NEAR_P, NEAR_M, BELOW = 1 + 1e-6, -1 - 1e-7, 1 - 1e-6
 CLASSES = {
     # fields, names of the two BC arguments (None: single ``bc``), parameter sets
     "DiffusionPDE": {"fields": 1, "two": None, "P": {
-        "A": {"diffusivity": 0.7}, "B": {"diffusivity": T13}, "C": {"diffusivity": 1}}},
+        "A": {"diffusivity": 0.7}, "B": {"diffusivity": T13}, "C": {"diffusivity": 1},
+        "D": {"diffusivity": 1e-9}, "E": {"diffusivity": BELOW}}},
     "AllenCahnPDE": {"fields": 1, "two": None, "P": {
         "A": {"interface_width": 0.6, "mobility": 1.7},
         "B": {"interface_width": T23, "mobility": 3 / 7},
-        "C": {"interface_width": -1, "mobility": 1}}},
+        "C": {"interface_width": -1, "mobility": 1},
+        "D": {"interface_width": 4e-9, "mobility": 1e9},
+        "E": {"interface_width": BELOW, "mobility": NEAR_M}}},
     "CahnHilliardPDE": {"fields": 1, "two": ("bc_c", "bc_mu"), "P": {
-        "A": {"interface_width": 0.8}, "B": {"interface_width": T23}, "C": {"interface_width": 1}}},
+        "A": {"interface_width": 0.8}, "B": {"interface_width": T23}, "C": {"interface_width": 1},
+        "D": {"interface_width": -2.5e-9}, "E": {"interface_width": NEAR_P}}},
     "KPZInterfacePDE": {"fields": 1, "two": None, "P": {
-        "A": {"nu": 0.4, "lmbda": 1.3}, "B": {"nu": T13, "lmbda": -2 / 7}, "C": {"nu": 1, "lmbda": 0}}},
+        "A": {"nu": 0.4, "lmbda": 1.3}, "B": {"nu": T13, "lmbda": -2 / 7}, "C": {"nu": 1, "lmbda": 0},
+        "D": {"nu": 1e-9, "lmbda": 4e-9}, "E": {"nu": BELOW, "lmbda": NEAR_M}}},
     "KuramotoSivashinskyPDE": {"fields": 1, "two": ("bc", "bc_lap"), "P": {
-        "A": {"nu": 0.9}, "B": {"nu": T13}, "C": {"nu": -1}}},
+        "A": {"nu": 0.9}, "B": {"nu": T13}, "C": {"nu": -1}, "D": {"nu": 4e-9}, "E": {"nu": NEAR_M}}},
     "SwiftHohenbergPDE": {"fields": 1, "two": ("bc", "bc_lap"), "P": {
         "A": {"rate": 0.2, "kc2": 0.7, "delta": 0.3},
         "B": {"rate": T13, "kc2": 2 / 7, "delta": -1 / 6},
-        "C": {"rate": 1, "kc2": 1, "delta": 0}}},
+        "C": {"rate": 1, "kc2": 1, "delta": 0},
+        "D": {"rate": 1e-9, "kc2": 4e-9, "delta": -2.5e-9},
+        # printed: rate - kc2**2 = 1 + 1e-6, delta = -1 - 1e-7, 2*kc2 = 0.999999
+        "E": {"rate": NEAR_P + (BELOW / 2) ** 2, "kc2": BELOW / 2, "delta": NEAR_M}}},
     "WavePDE": {"fields": 2, "two": None, "P": {
-        "A": {"speed": 1.4}, "B": {"speed": 4 / 3}, "C": {"speed": 1}}},
+        "A": {"speed": 1.4}, "B": {"speed": 4 / 3}, "C": {"speed": 1},
+        "D": {"speed": 5e-5}, "E": {"speed": BELOW**0.5}}},
     "KleinGordonPDE": {"fields": 2, "two": None, "P": {
-        "A": {"speed": 1.3, "mass": 0.6}, "B": {"speed": T23, "mass": 5 / 7}, "C": {"speed": -1, "mass": 0}}},
+        "A": {"speed": 1.3, "mass": 0.6}, "B": {"speed": T23, "mass": 5 / 7}, "C": {"speed": -1, "mass": 0},
+        "D": {"speed": 3e-5, "mass": 5e-5}, "E": {"speed": BELOW**0.5, "mass": NEAR_P**0.5}}},
 }
+# grid families on which the special sets C, D, E are run in the quick tier (all families in thorough)
+EXTREME_FAMS_QUICK = ["1d", "2d", "spherical-hole"]
 
 # grids: family -> spec per number of fields; "1" for scalar states, "2" for two-field states
 # (<= 8 degrees of freedom in both cases)
@@ -203,6 +234,8 @@ ONE_KINDS = ["default", "dirichlet0-str", "val0/der0", "mixed0/val0", "val1.2/de
              "mixed/curv", "vexpr_t/dexpr_t", "partial-axis", "partial-side"]
 ONE_KINDS_PERIODIC = ["default", "dirichlet0-str", "explicit"]
 ONE_KINDS_SET_C = ["default", "val1.2/der0.5"]
+# sets D, E: homogeneous conditions, so that R3 is compared for every class (incl. KS / SH)
+ONE_KINDS_EXTREME = ["default", "mixed0/val0", "explicit"]
 PAIR_KINDS = [("val0", "der0"), ("der0", "val0"), ("val1.2", "der1.2"), ("der1.2", "val1.2"), ("val0.8", "curv0.8"),
               ("val1.2", "val0.4"), ("val1.2/der0.5", "der1.2/val0.5"), ("vexpr_t", "der0.5"), ("der0.5", "vexpr_t"),
               ("default", "val1.2"), ("val1.2", "neumann0-str"), ("mixed/curv", "val1.2")]
@@ -350,6 +383,30 @@ def printed_coefficients(name, P):
     raise ValueError(name)
 
 
+def unit_scale(name, P):
+    """magnitude of the rate's terms for a state and boundary data of unit size (sum of the absolute
+    coefficients of the documented formula): the floor of every comparison scale, so that tolerances stay
+    *relative* when all coefficients are tiny"""
+    a = abs
+    if name == "DiffusionPDE":
+        k = a(P["diffusivity"])
+    elif name == "AllenCahnPDE":
+        k = a(P["mobility"]) * (a(P["interface_width"]) + 2)
+    elif name == "CahnHilliardPDE":
+        k = 2 + a(P["interface_width"])
+    elif name == "KPZInterfacePDE":
+        k = a(P["nu"]) + a(P["lmbda"])
+    elif name == "KuramotoSivashinskyPDE":
+        k = a(P["nu"]) + 1.5
+    elif name == "SwiftHohenbergPDE":
+        k = a(P["rate"] - P["kc2"] ** 2) + 2 * a(P["kc2"]) + a(P["delta"]) + 2
+    elif name == "WavePDE":
+        k = 1 + P["speed"] ** 2
+    else:
+        k = 1 + P["speed"] ** 2 + P["mass"] ** 2
+    return max(k, 1e-300)
+
+
 def r3_rule(name, same_bc, hom):
     """(compare R3?, reason if not) - see the module docstring"""
     if name in ("DiffusionPDE", "AllenCahnPDE", "KPZInterfacePDE", "WavePDE", "KleinGordonPDE"):
@@ -365,8 +422,9 @@ def r3_rule(name, same_bc, hom):
 
 def reference_rate(np, name, P, grid, fields, B1, B2, t, NL):
     """the documented formula evaluated with the field API; returns (rate, magnitude of all terms and
-    intermediate fields [round-off scale], magnitude of the terms that carry a printed coefficient
-    [scale of the printing error of the expression text])"""
+    intermediate fields [round-off scale], list of the magnitudes |q_k| |T_k| of the terms multiplied by the
+    printed coefficients q_k, in the order of ``printed_coefficients`` [scale of the printing error of the
+    expression text, term by term])"""
     from pde import ScalarField
 
     args = {"t": t}
@@ -376,24 +434,24 @@ def reference_rate(np, name, P, grid, fields, B1, B2, t, NL):
     if name == "DiffusionPDE":
         lap = c.laplace(B1, args=args).data
         m = abs(P["diffusivity"]) * n(lap)
-        return P["diffusivity"] * lap, m, m
+        return P["diffusivity"] * lap, m, [m]
     if name == "AllenCahnPDE":
         lap = c.laplace(B1, args=args).data
         g, m = P["interface_width"], P["mobility"]
         mag = abs(m) * (abs(g) * n(lap) + n(cd) ** 3 + n(cd))
-        return m * (g * lap - cd**3 + cd), mag, mag
+        return m * (g * lap - cd**3 + cd), mag, [abs(m * g) * n(lap), mag]
     if name == "CahnHilliardPDE":
         g = P["interface_width"]
         lap = c.laplace(B1, args=args).data
         mu = ScalarField(grid, cd**3 - cd - g * lap)
         rate = mu.laplace(B2, args=args).data
         # printed: g, which multiplies A_mu(L_c c) (A = linear part of the outer Laplacian, |A x| <= NL |x|)
-        return rate, n(rate) + NL * (n(cd) ** 3 + n(cd) + abs(g) * n(lap)), abs(g) * NL * n(lap)
+        return rate, n(rate) + NL * (n(cd) ** 3 + n(cd) + abs(g) * n(lap)), [abs(g) * NL * n(lap)]
     if name == "KPZInterfacePDE":
         lap = c.laplace(B1, args=args).data
         gs = c.gradient_squared(B1, args=args).data
         mag = abs(P["nu"]) * n(lap) + abs(P["lmbda"]) * n(gs)
-        return P["nu"] * lap + P["lmbda"] * gs, mag, mag
+        return P["nu"] * lap + P["lmbda"] * gs, mag, [abs(P["nu"]) * n(lap), abs(P["lmbda"]) * n(gs)]
     if name == "KuramotoSivashinskyPDE":
         nu = P["nu"]
         lapf = c.laplace(B1, args=args)
@@ -402,7 +460,7 @@ def reference_rate(np, name, P, grid, fields, B1, B2, t, NL):
         gs = c.gradient_squared(B1, args=args).data
         rate = -nu * lap2 - lap - 0.5 * gs
         # printed: nu, which multiplies L(L c) (R3 is compared for homogeneous conditions only: A = L)
-        return rate, abs(nu) * n(lap2) + n(lap) + 0.5 * n(gs) + NL * (n(cd) + abs(nu) * n(lap)), abs(nu) * n(lap2)
+        return rate, abs(nu) * n(lap2) + n(lap) + 0.5 * n(gs) + NL * (n(cd) + abs(nu) * n(lap)), [abs(nu) * n(lap2)]
     if name == "SwiftHohenbergPDE":
         eps, kc2, dl = P["rate"], P["kc2"], P["delta"]
         lapf = c.laplace(B1, args=args)
@@ -410,16 +468,16 @@ def reference_rate(np, name, P, grid, fields, B1, B2, t, NL):
         lap2 = lapf.laplace(B2, args=args).data
         rate = eps * cd - kc2 * kc2 * cd - 2 * kc2 * lap - lap2 + dl * cd**2 - cd**3
         mag = (abs(eps) + kc2 * kc2) * n(cd) + 2 * abs(kc2) * n(lap) + n(lap2) + abs(dl) * n(cd) ** 2 + n(cd) ** 3
-        magp = abs(eps - kc2 * kc2) * n(cd) + abs(dl) * n(cd) ** 2 + 2 * abs(kc2) * n(lap)
+        magp = [abs(eps - kc2 * kc2) * n(cd), abs(dl) * n(cd) ** 2, 2 * abs(kc2) * n(lap)]
         return rate, mag + NL * (2 * abs(kc2) * n(cd) + n(lap)), magp
     u, v = fields
     lap = u.laplace(B1, args=args).data
     s2 = P["speed"] * P["speed"]
     if name == "WavePDE":
-        return np.stack([v.data, s2 * lap]), n(v.data) + s2 * n(lap), s2 * n(lap)
+        return np.stack([v.data, s2 * lap]), n(v.data) + s2 * n(lap), [s2 * n(lap)]
     if name == "KleinGordonPDE":
         m2 = P["mass"] * P["mass"]
-        return np.stack([v.data, s2 * lap - m2 * u.data]), n(v.data) + s2 * n(lap) + m2 * n(u.data), s2 * n(lap) + m2 * n(u.data)
+        return np.stack([v.data, s2 * lap - m2 * u.data]), n(v.data) + s2 * n(lap) + m2 * n(u.data), [s2 * n(lap), m2 * n(u.data)]
     raise ValueError(name)
 
 
@@ -519,7 +577,10 @@ def class_case(case):
     rhs = {b: eq.make_pde_rhs(state0, backend=b) for b in ("numpy", "numba")}
     # ---- R3
     do3, why3 = r3_rule(name, same_bc, hom)
-    rel3 = sum(print_error(q) for q in printed_coefficients(name, P))
+    rels = [print_error(q) for q in printed_coefficients(name, P)]
+    rel3 = sum(rels)
+    kappa = unit_scale(name, P)
+    dev = {"R2/REF": 0.0, "R3": 0.0}  # largest observed deviation / scale (R3: beyond the printing allowance)
     rhs3, text = {}, None
     if do3:
         text = dict(eq.expressions) if hasattr(eq, "expressions") else {"c": eq.expression}
@@ -540,10 +601,11 @@ def class_case(case):
         c2["only"] = {"t": t, "state": [float(x) for x in p], "label": label}
         with np.errstate(all="ignore"):
             diff = np.abs(np.asarray(got, dtype=float) - exp)
+        shp = "" if np.shape(got) == exp.shape else f" [result has shape {np.shape(got)} instead of {exp.shape}]"
         viol.append({
             "sig": sig,
             "msg": f"{name}({P}) on {grid_name(spec)} bc={bc[1:] or 'default'} t={t} state[{label}]={[float(x) for x in p]}: "
-                   f"{clause}: max diff {float(np.nanmax(diff)):.3g} (tolerance {tol:.3g})",
+                   f"{clause}: max diff {float(np.nanmax(diff)):.3g} (tolerance {tol:.3g}){shp}",
             "detail": {"got": np.asarray(got).tolist(), "expected": np.asarray(exp).tolist(), "params": P,
                        "bc_given": {k: repr(v)[:300] for k, v in kw.items() if k.startswith("bc")},
                        "expression": text, "extra": extra},
@@ -558,6 +620,22 @@ def class_case(case):
         with np.errstate(all="ignore"):
             return bool(np.all(np.abs(got - exp) <= tol))
 
+    def devof(got, exp):
+        got = np.asarray(got)
+        if got.shape != exp.shape:
+            return float("inf")
+        with np.errstate(all="ignore"):
+            d = float(np.max(np.abs(got - exp)))
+        return d if d == d else float("inf")
+
+    def bucket(x):
+        if x == 0:
+            return "0 (bitwise)"
+        for k in range(-16, -9):
+            if x <= 10.0**k:
+                return f"<= 1e{k}"
+        return "> 1e-10"
+
     times = TIMES if only is None else [only["t"]]
     for t in times:
         for label, p in state_list(np, M, case.get("seed", 0), only, reduced=bool(case.get("reduced"))):
@@ -565,14 +643,16 @@ def class_case(case):
             r1 = np.array(eq.evolution_rate(state.copy(), t).data)
             flds = [state] if nf == 1 else list(state)
             ref, mag, magp = reference_rate(np, name, P, grid, [f.copy() for f in flds], B1, B2, t, NL)
-            scale = max(1.0, mag, _nrm(np, r1))
+            scale = max(kappa, mag, _nrm(np, r1))
             tol = 1e-11 * scale
             n += 2
+            dev["R2/REF"] = max(dev["R2/REF"], devof(ref, r1) / scale)
             if not close(ref, r1, tol):
                 bad("evolution_rate differs from the documented formula (field API reference)", label, p, t, r1, ref, tol)
             for b, f in rhs.items():
                 val = f(state.data.copy(), t)
                 n += 1
+                dev["R2/REF"] = max(dev["R2/REF"], devof(val, r1) / scale)
                 if not close(val, r1, tol):
                     bad(f"{b} rhs differs from evolution_rate", label, p, t, val, r1, tol)
             if eq_dict is not None and (label.startswith("generic") or label in ("det0", "replay")):
@@ -581,10 +661,12 @@ def class_case(case):
                 if not close(val, r1, tol):
                     bad("evolution_rate with conditions given as dict differs from the same conditions parsed once",
                         label, p, t, val, r1, tol)
-            tol3 = 1e-10 * scale + 2 * rel3 * magp
+            allow3 = 2 * sum(r * m for r, m in zip(rels, magp))  # printing error, term by term
+            tol3 = 1e-12 * scale + allow3
             for b, f in rhs3.items():
                 val = f(state.data.copy(), t)
                 n += 1
+                dev["R3"] = max(dev["R3"], max(0.0, devof(val, r1) - allow3) / scale)
                 if not close(val, r1, tol3):
                     bad(f"PDE(expression) [{b}] differs from evolution_rate", label, p, t, val, r1, tol3,
                         extra={"printing_error": rel3})
@@ -593,7 +675,8 @@ def class_case(case):
         "v": viol[:6],
         "n": n,
         "keys": [f"{name}|{pset}|{grid_name(spec)}|{bc}|t={t}" for t in times],
-        "outs": [out3, f"jit={jit}"],
+        "outs": [out3, f"jit={jit}", f"observed |R2,REF - R1| / scale {bucket(dev['R2/REF'])}"]
+                + ([f"observed |R3 - R1| / scale beyond the printing allowance {bucket(dev['R3'])}"] if do3 else []),
     }
 
 
@@ -965,7 +1048,7 @@ def compiled_case(case):
     return class_case(case) if "cls" in case else pde_case(case)
 
 
-def class_cases(grids, seed):
+def class_cases(grids, seed, extreme_fams=None):
     cases = []
     for fam, by_nf in grids.items():
         for name, info in CLASSES.items():
@@ -974,11 +1057,16 @@ def class_cases(grids, seed):
                 continue
             geo = geometry(spec)
             periodic = all(geo["periodic"])
-            for pset in ("A", "B", "C"):
+            for pset in ("A", "B", "C", "D", "E"):
                 ones = ONE_KINDS_PERIODIC if periodic else ONE_KINDS
                 pairs = PAIR_KINDS_PERIODIC if periodic else PAIR_KINDS
+                if pset in "CDE" and extreme_fams is not None and fam not in extreme_fams:
+                    continue
                 if pset == "C":
                     ones = [k for k in ones if k in ONE_KINDS_SET_C]
+                    pairs = []
+                if pset in "DE":
+                    ones = [k for k in ones if k in ONE_KINDS_EXTREME]
                     pairs = []
                 if geo["num_axes"] == 1:
                     ones = [k for k in ones if k != "partial-axis"]  # identical to val1.2/der0.5 on one axis
@@ -1002,6 +1090,8 @@ def pde_cases(pgrids, seed, tier):
             geo = geometry(by_nf[1])
             for terms in singles + pairs:
                 for var in SINGLE_VARIANTS:
+                    if tier == "quick" and len(terms) == 2 and var == "general":
+                        continue  # quick: pairs get the general condition in its time dependent form only
                     c = {"kind": "single", "terms": terms, "fam": fam, "grid": by_nf[1], "variant": var, "seed": seed}
                     if variant_bcs(c, geo) is None:
                         continue
@@ -1067,7 +1157,9 @@ def main(run):
     only = getattr(run, "only", None)
     grids = GRIDS_THOROUGH if tier == "thorough" else GRIDS_QUICK
     pgrids = PGRIDS_THOROUGH if tier == "thorough" else PGRIDS_QUICK
-    ccases = class_cases(grids, run.seed)
+    if not only or "jit" in only:
+        run.pool("J")  # let the JIT workers import numba / pde while the interpreted parts run
+    ccases = class_cases(grids, run.seed, EXTREME_FAMS_QUICK if tier == "quick" else None)
     # expensive cases first, so that the pool stays balanced
     cost = lambda c: -n_points(CLASSES[c["cls"]]["fields"] * _ncell(c["grid"]))  # noqa: E731
     ccases.sort(key=cost)
